@@ -94,6 +94,8 @@ type Gen struct {
 	// TargetRemovalPct: how often (percent) a single removal picks an entity that currently
 	// is a relation target.
 	TargetRemovalPct int
+	// IllegalQuerySteps adds out-of-range EntityAt/Step calls to query scripts.
+	IllegalQuerySteps bool
 	// Illegal lists the illegal-argument classes to inject, IllegalPct how often (percent of ops).
 	Illegal    []string
 	IllegalPct int
@@ -399,8 +401,12 @@ func (g *Gen) Enabled() []string {
 			ok = len(free) > 0
 		case OpUnregister:
 			ok = len(used) > 0
-		case OpReset, OpGC, OpDumpLoad:
+		case OpReset, OpGC, OpDumpLoad, OpResAdd, OpResRemove, OpTypeLimit:
 			ok = true
+		case OpDeadRead:
+			ok = len(m.Ents) > m.NAlive
+		case OpCacheIll:
+			ok = len(used) > 0
 		}
 		if ok {
 			for i := 0; i < w; i++ {
@@ -620,8 +626,33 @@ func (g *Gen) drawKind(t *rapid.T, k string) (Op, bool) {
 			return Op{}, false
 		}
 		return Op{K: k, Slot: used[rapid.IntRange(0, len(used)-1).Draw(t, "slot")]}, true
-	case OpReset, OpGC, OpDumpLoad:
+	case OpReset, OpGC, OpDumpLoad, OpTypeLimit:
 		return Op{K: k}, true
+	case OpResAdd, OpResRemove:
+		// legal instances only; the illegal ones are drawn by DrawIllegal
+		cands := []int{}
+		for r := 0; r < NumRes; r++ {
+			if m.Res[r] == (k == OpResRemove) {
+				cands = append(cands, r)
+			}
+		}
+		if len(cands) == 0 {
+			return Op{}, false
+		}
+		return Op{K: k, C: pick(t, cands, "res")}, true
+	case OpDeadRead:
+		dead := m.DeadOrds()
+		if len(dead) == 0 {
+			return Op{}, false
+		}
+		return Op{K: k, Ill: IllDeadEntity, E: dead[len(dead)-1-rapid.IntRange(0, min(3, len(dead)-1)).Draw(t, "dead")],
+			C: rapid.IntRange(0, m.U.N()-1).Draw(t, "c"), V: rapid.IntRange(0, 4).Draw(t, "accessor")}, true
+	case OpCacheIll:
+		used, _ := g.regSlots()
+		if len(used) == 0 {
+			return Op{}, false
+		}
+		return Op{K: k, Ill: "cache", Slot: pick(t, used, "slot"), V: rapid.IntRange(0, 1).Draw(t, "how")}, true
 	}
 	return Op{}, false
 }
@@ -652,14 +683,20 @@ func setOf(cs []int) uint32 {
 func (g *Gen) GenScript(t *rapid.T) []QStep {
 	n := rapid.IntRange(0, 6).Draw(t, "nscript")
 	out := []QStep{}
+	kinds := []string{"next", "next", "step", "step", "count", "at", "atall", "all", "close"}
+	if g.IllegalQuerySteps {
+		kinds = append(kinds, "at!neg", "at!count", "step!0", "step!neg")
+	}
 	for i := 0; i < n; i++ {
-		k := rapid.SampledFrom([]string{"next", "next", "step", "step", "count", "at", "atall", "all", "close"}).Draw(t, "qk")
+		k := rapid.SampledFrom(kinds).Draw(t, "qk")
 		st := QStep{K: k}
 		switch k {
 		case "step":
 			st.N = rapid.SampledFrom([]int{1, 1, 2, 2, 3, 5, 8, 13, 50}).Draw(t, "stepn")
 		case "at":
 			st.N = rapid.IntRange(0, 60).Draw(t, "atn")
+		case "at!neg", "at!count", "step!neg":
+			st.N = rapid.IntRange(0, 2).Draw(t, "illn")
 		}
 		out = append(out, st)
 	}
@@ -746,6 +783,9 @@ func (g *Gen) drawBatch(t *rapid.T, k string) (Op, bool) {
 		}
 	}
 	op.Add, op.Rem = add, rem
+	if op.Q && g.IllegalQuerySteps && rapid.IntRange(0, 2).Draw(t, "illq") == 0 {
+		op.Script = []QStep{{K: rapid.SampledFrom([]string{"at!neg", "at!count", "step!0", "step!neg"}).Draw(t, "illqk")}}
+	}
 	f := g.baseFilter(t, inc, ex)
 	op = g.withFilterChoice(t, op, f)
 	if op.Reg {
